@@ -38,7 +38,13 @@ TxWrite(v, t) == TxWriteOK(v, t) /\ TxWriteUpd(v, t)
 TxWriteAny(v, t) == v \in seen /\ TxWriteUpd(v, t)
 (* a GroupValueResponse on the bus: answers the oldest open read with the most recent value *)
 TxResponseOK(v, t) == Live(t) # <<>> /\ v = lastSet
-TxResponseUpd(v, t) == /\ reads' = (IF Live(t) = <<>> THEN <<>> ELSE Tail(Live(t))) /\ lastBus' = v /\ owed' = FALSE
+\* (a read that carried no obligation - no value was known when it arrived - was dropped by the device at once: the response then belongs to
+\*  the oldest read that has to be answered, if there is one)
+FirstMust(rs) == CHOOSE i \in 1..Len(rs) : rs[i].must /\ \A j \in 1..(i - 1) : ~rs[j].must
+Answered(rs) == IF rs = <<>> THEN <<>>
+                ELSE IF \E i \in 1..Len(rs) : rs[i].must THEN [j \in 1..(Len(rs) - 1) |-> IF j < FirstMust(rs) THEN rs[j] ELSE rs[j + 1]]
+                ELSE Tail(rs)
+TxResponseUpd(v, t) == /\ reads' = Answered(Live(t)) /\ lastBus' = v /\ owed' = FALSE
                        /\ UNCHANGED <<lastSet, lastSetAt, lastWrite, seen>>
 TxResponse(v, t) == TxResponseOK(v, t) /\ TxResponseUpd(v, t)
 \* ---- deadlines, evaluated at the time t of every event
